@@ -10,7 +10,17 @@ KNOWN_WILDCARD = 'C12-wildcard-on-class-import'
 
 
 def rust_mod(name):
-    return name.lower().replace('-', '_')
+    """to_rust_snake_case of a module name (Model/Names.v snake): a `_` before every capital that follows a lower-case letter or digit"""
+    s_ = name.replace('-', '_')
+    out = []
+    for i, c in enumerate(s_):
+        if c.islower() or c == '_' or c.isdigit():
+            out.append(c)
+            if c != '_' and i + 1 < len(s_) and s_[i + 1].isupper():
+                out.append('_')
+        else:
+            out.append(c.lower())
+    return ''.join(out)
 
 
 def import_closure(ms, mname):
@@ -63,6 +73,16 @@ def add_qualified(ck, ms):
                     d.qualified = True
 
 
+ck_hump = ['NetV2Mod', 'X509v3Ext', 'PartsCatalog', 'ABCDefs9Mod']
+
+
+def rename_modules(ms, f):
+    """module names with capital humps and digits (`NetV2Mod03-a`): snake-casing and plain lower-casing differ on them"""
+    ms.modules = [(f(n), o, ds) for n, o, ds in ms.modules]
+    for d in ms.all_defs():
+        d.module = f(d.module)
+
+
 def run(ck):
     ck.coverage['rule'] = ('generated sets of 2..5 modules with differing tagging and extensibility defaults and an import graph between them (types '
                            'and values used in components, element types, aliases and value governors; some references module-qualified): the set '
@@ -81,6 +101,8 @@ def run(ck):
         for i, (mn, opts, _) in enumerate(ms.modules):
             opts['tagging'] = MG.TAGGING[(k + i) % 4]
             opts['ext'] = (k + i) % 3 == 0
+        if k % 3 == 1:
+            rename_modules(ms, lambda n: n.replace('Mod', ck_hump[k % len(ck_hump)]))
         if ck.rng.random() < 0.5:
             add_qualified(ck, ms)
         names = [m[0] for m in ms.modules]
@@ -114,6 +136,13 @@ def run(ck):
             ck.violation('impl-violation', c['sources'], impl={x: y for x, y in r.items() if x not in ('generated', 'items')},
                          why='a set of modules of the supported notation is rejected (%s)' % kind)
             continue
+        mods_emitted = {m['name'] for m in r['items'] if m.get('kind') == 'mod'}
+        for mname_, _, _ in (ms.modules if kind == 'all' else []):     # only the complete set is closed under references
+            bj = block_json(r, mname_) or ''
+            missing = sorted(set(re.findall(r'super::([A-Za-z0-9_]+)::', bj)) - mods_emitted)
+            if missing:
+                ck.violation('impl-violation', c['sources'], module=mname_, paths=missing, emitted=sorted(mods_emitted),
+                             why='a module-qualified reference / use line names a sibling module that is not emitted under that name')
         if kind == 'all':
             full[k] = r
             for mname, _, defs in ms.modules:
@@ -169,11 +198,28 @@ def run(ck):
         ck.broken.append({'kind': 'correspondence', 'item': 'use line of an IMPORTS clause',
                           'detail': 'model and implementation disagree on the use line of %s FROM %s: %s' % (mname, src_mod, use_terms[j][:400])})
     # clauses naming a class or a parameterized reference: wildcard (known finding)
-    probe = ('Mw-a DEFINITIONS AUTOMATIC TAGS ::= BEGIN\nIMPORTS Plain-t, MY-CLASS FROM Mw-b;\nUse-t ::= SEQUENCE { p Plain-t }\nEND\n'
-             'Mw-b DEFINITIONS AUTOMATIC TAGS ::= BEGIN\nPlain-t ::= INTEGER\nOther-t ::= BOOLEAN\nMY-CLASS ::= CLASS { &id INTEGER UNIQUE }\nEND\n')
+    probe = ('Mw-a DEFINITIONS AUTOMATIC TAGS ::= BEGIN\nIMPORTS Plain-t, MY-CLASS FROM Mw-b;\nUse-t ::= SEQUENCE { p Plain-t, c MY-CLASS.&code }\nEND\n'
+             'Mw-b DEFINITIONS AUTOMATIC TAGS ::= BEGIN\nPlain-t ::= INTEGER\nOther-t ::= BOOLEAN\nOp-code ::= INTEGER (0..9)\n'
+             'MY-CLASS ::= CLASS { &id INTEGER UNIQUE, &code Op-code }\nEND\n')
     r = run_harness([{'op': 'compile', 'sources': [probe]}])[0]
     ck.note_case(probe)
     obs = use_lines(r, 'Mw-a') if r.get('ok') and 'items' in r else {}
+    # whatever form the use line takes, every type the importing module mentions must be declared there or reachable through it
+    if r.get('ok') and 'items' in r:
+        blocks = {m['name']: m for m in r['items'] if m.get('kind') == 'mod'}
+        declared = lambda mod: {it['name'] for it in blocks.get(mod, {}).get('items', []) if it.get('kind') in ('struct', 'enum', 'type')}
+        reachable = set(declared('mw_a'))
+        for mod, lst in obs.items():
+            reachable |= declared(mod) if lst is None else set(lst)
+        mentioned = set()
+        for it in blocks.get('mw_a', {}).get('items', []):
+            if it.get('kind') == 'struct' and it['name'] == 'UseT':
+                for f in it['fields']:
+                    mentioned |= set(re.findall(r'\b[A-Z][A-Za-z0-9]*\b', f['ty']))
+        unresolved = sorted(mentioned - reachable - {'Integer', 'Option', 'Any', 'Box', 'SequenceOf', 'SetOf'})
+        if unresolved or 'UseT' not in declared('mw_a'):
+            ck.violation('impl-violation', probe, use=obs, unresolved=unresolved,
+                         why='the importing module mentions types that are neither declared in it nor brought in by its use lines')
     if obs.get('mw_b', 'missing') != ['PlainT']:
         if ck.is_known(KNOWN_WILDCARD):
             ck.known_hit(KNOWN_WILDCARD, {'asn1': probe, 'use': obs})
